@@ -125,7 +125,9 @@ class Vhdx(Parser):
             "unknown_required_item": [("unknown_item", uuid.UUID(int=g), fl) for g in (0xDEADBEEF, enc_vhdx.G_DISK_SIZE.int ^ 1) for fl in (0x4, 0x5, 0x6, 0x7)],
             "locator_type": [("locator_type", uuid.UUID(int=k)) for k in (0, 1, enc_vhdx.G_VHDX_LOCATOR.int ^ 1, enc_vhdx.G_VHDX_LOCATOR.int ^ (1 << 127))],
             # the parent cannot be located: not on disk, or the child was handed over as an anonymous stream (no directory to look in)
-            "parent_resolved": [("missing_parent",), ("anonymous_handle", "bytesio"), ("anonymous_handle", "buffered")],
+            # ... or it was there when the same child was opened a moment ago and has since been removed / replaced by something else
+            "parent_resolved": [("missing_parent",), ("anonymous_handle", "bytesio"), ("anonymous_handle", "buffered"),
+                                ("parent_gone_after_open", "removed"), ("parent_gone_after_open", "not-a-vhdx"), ("parent_gone_after_open", "empty")],
             "bat_region": [("omit_region", enc_vhdx.G_BAT)],
         }
 
@@ -160,6 +162,7 @@ class Vhdx(Parser):
                 parent_exists = False
             elif v[0] == "anonymous_handle":
                 anon = v[1]
+        gone = next((v[1] for v in variants.values() if v[0] == "parent_gone_after_open"), None)
         d = tempfile.mkdtemp(prefix="c12-vhdx-", dir=self.work)
         try:
             loc = {"parent_linkage": "{1}", "relative_path": ".\\parent.vhdx", "absolute_win32_path": "C:\\nowhere\\parent.vhdx"} if has_parent else None
@@ -170,6 +173,13 @@ class Vhdx(Parser):
             if has_parent and parent_exists:
                 pv, _ = enc_vhdx.build([(enc_vhdx.ST_FULL, 0)], block_size=1 << 20, sector_size=512, disk_size=1 << 20, file_id=3)
                 pv.materialise(os.path.join(d, "parent.vhdx"))
+            if gone:
+                VHDX(Path(d) / "child.vhdx").read(512)        # a first, regular open of the same child in the same place
+                pp = os.path.join(d, "parent.vhdx")
+                os.remove(pp)
+                if gone != "removed":
+                    with open(pp, "wb") as f:
+                        f.write(b"" if gone == "empty" else b"this is not a virtual disk\n" * 4000)
             if anon:
                 data = open(os.path.join(d, "child.vhdx"), "rb").read()
                 v = VHDX(io.BytesIO(data) if anon == "bytesio" else io.BufferedReader(io.BytesIO(data)))
@@ -233,7 +243,9 @@ class Hdd(Parser):
                 "image_type": [("type", t) for t in ("Raw", "compressed", "PLAIN", "", "Expanding", "Compressed2", "Plain ", "Sparse")],
                 "parent_image_type": [("ptype", t, depth) for t in ("Raw", "compressed", "PLAIN", "", "Expanding", "Sparse") for depth in (1, 2)],
                 # the snapshot chain names an ancestor for which the storage holds no image (or holds it under another GUID)
-                "ancestor_image_present": [("noimage", depth, how) for depth in (1, 2) for how in ("dropped", "other-guid")]}
+                "ancestor_image_present": [("noimage", depth, how) for depth in (1, 2) for how in ("dropped", "other-guid")]
+                                          # ... or names its image file in a place where it is not (a same-named file elsewhere does not count)
+                                          + [("nofile", depth, rel) for depth in (0, 1, 2) for rel in ("{}", "images/{}", "../other.hdd/{}", "sub/dir/{}")]}
 
     def open(self, variants):
         from dissect.hypervisor.disk.hdd import HDD
@@ -258,8 +270,15 @@ class Hdd(Parser):
                         images.pop(v[1])
                     else:
                         images[v[1]] = ("{99999999-aaaa-bbbb-cccc-00000000000%d}" % v[1],) + images[v[1]][1:]
+            files = {"a.hds": vf, "m.hds": vfm, "b.hds": vfb}
+            for g, v in variants.items():
+                if v[0] == "nofile":
+                    gg, tt, fn = images[v[1]]
+                    images[v[1]] = (gg, tt, v[2].format(fn))
+                    if v[2] == "{}":
+                        del files[fn]         # named in the directory itself and not there; otherwise the root keeps a same-named file
             enc_hds.write_hdd_dir(d, [(0, 8, images)],
-                                  [(g0, g1), (g1, g2), (g2, enc_hds.NULL_GUID)], {"a.hds": vf, "m.hds": vfm, "b.hds": vfb}, top_guid=g0)
+                                  [(g0, g1), (g1, g2), (g2, enc_hds.NULL_GUID)], files, top_guid=g0)
             for g, v in variants.items():
                 if v[0] == "missing":
                     os.remove(os.path.join(d, "DiskDescriptor.xml"))
@@ -502,7 +521,7 @@ class KeysafeP(Parser):
     name = "keysafe"
 
     def gates(self):
-        return {"identifier": [("ident", x) for x in ("vmware:keys", "Vmware:key", "vmware:key2", "", "vmware", "vmware:KEY")],
+        return {"identifier": [("ident", x) for x in ("vmware:keys", "Vmware:key", "vmware:key2", "", "vmware", "vmware:KEY", "vmware:key/vmware:key", None)],
                 "locator_kind": [("kind", k) for k in ("rawkey", "ldap", "script", "role", "fqid", "phrase2", "Phrase", "")]
                                 + [("kind-in-second-pair", k, where) for k in ("rawkey", "ldap", "fqid", "script") for where in ("before", "after")],
                 # algorithm identifiers of a phrase locator / pair that this reader does not implement
@@ -519,7 +538,8 @@ class KeysafeP(Parser):
         ks = enc_vmx.keysafe([pt])
         for v in variants.values():
             if v[0] == "ident":
-                ks = v[1] + ks[len("vmware:key"):]
+                # (None: no identifier at all, the text starts with the list)
+                ks = ks[len("vmware:key/"):] if v[1] is None else v[1] + ks[len("vmware:key"):]
             elif v[0] == "kind":
                 ks = ks.replace("pair/(phrase/", f"pair/({v[1]}/")
             elif v[0] == "kind-in-second-pair":
